@@ -259,6 +259,16 @@ func ApplySpec(reg *uefigen.Region, o EOp, touched map[int]bool) bool {
 	return false
 }
 
+// AnyBad: a file to insert that does not parse makes ParseCLI fail before anything else happens.
+func AnyBad(ops []EOp) bool {
+	for _, o := range ops {
+		if o.Bad {
+			return true
+		}
+	}
+	return false
+}
+
 // Expectation of a sequence: "E<k>" or the hex of the abstract lists, and the touched volumes.
 func Expect(reg *uefigen.Region, ops []EOp) (string, string) {
 	touched := map[int]bool{}
@@ -506,6 +516,11 @@ func GenOp(r *Rng, reg *uefigen.Region, maxDepth int) EOp {
 		if o.It == "dxe" {
 			o.Target = ""
 		}
+		if r.Chance(1, 25) && len(o.Data) > 30 {
+			// a file that NewFile rejects at ParseCLI time: cut inside its body
+			o.Data = o.Data[:24+r.Intn(len(o.Data)-24)]
+			o.Bad = true
+		}
 		return o
 	case k <= 6:
 		return EOp{Kind: "rm", Pad: r.Chance(2, 5), Target: genTarget(r, reg, false, false)}
@@ -549,7 +564,9 @@ func GenCase(r *Rng, maxDepth int, nops int) ECase {
 		}
 	}
 	c := ECase{Img: img, Ops: ops, Reg: reg}
-	if errAt >= 0 {
+	if AnyBad(ops) {
+		c.Expect, c.Touched = "C", "-"
+	} else if errAt >= 0 {
 		c.Expect, c.Touched = fmt.Sprintf("E%d", errAt), "-"
 	} else {
 		c.Expect, c.Touched = expectOf(reg, touched)
@@ -631,4 +648,33 @@ func Exhaustive(maxLen int, visit func(c ECase)) {
 	for which := 0; which < 3; which++ {
 		rec(which, nil)
 	}
+}
+
+func asciiOnly(s string) bool {
+	for i := 0; i < len(s); i++ {
+		if s[i] >= 0x80 {
+			return false
+		}
+	}
+	return true
+}
+
+// GenCaseGrammar draws the image from the general reference grammar of uefigen (all section kinds,
+// arbitrary names and checksums); used for the model correspondence only. Selection texts stay
+// ASCII (the model's case folding is ASCII).
+func GenCaseGrammar(r *Rng, nops int) ECase {
+	o := uefigen.Opts{MaxDepth: r.Pick(0, 0, 1), Strings: true, Alignments: r.Chance(2, 3), BigBodies: false}
+	reg := uefigen.GenRegion(r, o)
+	img, _ := uefigen.EmitRegion(reg)
+	var ops []EOp
+	touched := map[int]bool{}
+	for i := 0; i < nops; i++ {
+		op := GenOp(r, reg, 0)
+		if !asciiOnly(op.Target) {
+			op.Target = GuidText(poolGUID(1 + r.Intn(6)))
+		}
+		ops = append(ops, op)
+		ApplySpec(reg, op, touched)
+	}
+	return ECase{Img: img, Ops: ops}
 }
